@@ -23,9 +23,18 @@ def keys_hash(pubs65_by_path):
 
 
 def pubkeys_file(keys, form="uncompressed"):
+    """form: uncompressed (04 x y), compressed (02/03 x), hybrid (06/07 x y: the old X9.62
+    notation libsecp256k1 still reads), mixed (each key in a notation of its own)"""
     out = {}
-    for p, k in keys.items():
-        out[p] = (g1.pub65(k) if form == "uncompressed" else g1.pub33(k)).hex()
+    for i, (p, k) in enumerate(keys.items()):
+        f = form if form != "mixed" else ("uncompressed", "compressed", "hybrid")[i % 3]
+        u = g1.pub65(k)
+        if f == "uncompressed":
+            out[p] = u.hex()
+        elif f == "compressed":
+            out[p] = g1.pub33(k).hex()
+        else:
+            out[p] = (bytes([6 + (u[-1] & 1)]) + u[1:]).hex()
     return out
 
 
